@@ -31,8 +31,8 @@ def shard(ctx, n, sub, n_random, dfs_budget, with_limits):
         # run(cache=False) forces common-subexpression scope on every call; the opt-out shapes (and a share of the
         # others) run in the normal mode instead, with a smaller schedule budget (a fresh backend per run costs more)
         normal = shape == "optout" or rnd.random() < 0.25
-        sigs = sx.explore_program(ctx, "C06", ast, rnd, caps_cfg, max(3, n_random // 2) if normal else n_random,
-                                  max(40, dfs_budget // 3) if normal else dfs_budget, stats, holder, cache=normal)
+        sigs = sx.explore_program(ctx, "C06", ast, rnd, caps_cfg, max(3, min(8, n_random // 2)) if normal else n_random,
+                                  max(40, min(150, dfs_budget // 3)) if normal else dfs_budget, stats, holder, cache=normal)
         if len(sigs) >= 2:
             ctx.nontrivial([ast, caps_cfg])
         if i < 2:
